@@ -107,7 +107,7 @@ func (f *IPv4Filter) Remove(cidr *net.IPNet) error {
 func (f *IPv4Filter) Contains(ip net.IP) bool {
 	if f.matchAll.Load() {
 		return true
-	} else if len(ip) != net.IPv4len {
+	} else if ip = ip.To4(); ip == nil { // also accept the 16-byte form of an IPv4 address
 		return false
 	}
 
